@@ -484,3 +484,133 @@ def c09(tier):
 
 
 REGISTRY["C09"] = c09
+
+
+# ---------------------------------------------------------------------------------------------
+# C08: macro expansion is token-exact
+# ---------------------------------------------------------------------------------------------
+_TOK = re.compile(r'@\d+@|"(?:[^"\\]|\\.)*"|[A-Za-z_][A-Za-z0-9_]*|\d+|\S')
+
+
+def join_tokens(ts, tight):
+    """tight=True: no layout unless two word tokens touch; False: spaces everywhere except between a name and the
+    parenthesis that follows it; "callspace": spaces everywhere (a space between a macro name and its argument list is legal C)"""
+    out = ""
+    prev = None
+    for t in ts:
+        if out:
+            if tight is True:
+                sp = re.match(r"\w", t[0]) and re.match(r"\w", out[-1])
+            elif tight == "callspace":
+                sp = True
+            else:
+                sp = not (t == "(" and prev is not None and re.match(r"[A-Za-z_]", prev[0])) and not (t == ")" and prev == "(")
+            if sp:
+                out += " "
+        out += t
+        prev = t
+    return out
+
+
+def render_macro(c, tight):
+    lines, defines = [], []
+    for i in range(c["filler"]):
+        lines.append("#define FILL%d %d" % (i, i))
+    first = True
+    for d in c["dirs"]:
+        if d["k"] == "undef":
+            lines.append("#undef " + d["name"])
+            continue
+        body = join_tokens(d["body"], False)
+        if first and c["origin"] == "cmdline" and not d["fn"]:
+            defines.append("%s=%s" % (d["name"], body))
+        elif d["fn"]:
+            lines.append("#define %s(%s) %s" % (d["name"], ", ".join(d["params"]), body))
+        else:
+            lines.append("#define %s %s" % (d["name"], body))
+        first = False
+    lines.append("USE_BEGIN " + join_tokens(c["use"], tight) + " USE_END")
+    return "\n".join(lines) + "\n", defines
+
+
+def c08(tier):
+    t0 = time.time()
+    pid = "C08"
+    verdict = common.Verdict(pid)
+    d = common.workdir("gen_c08")
+    cfg = os.path.join(d, "GenMacro.cfg")
+    open(cfg, "w").write("INIT Init\nNEXT Next\nINVARIANT Emit\nCHECK_DEADLOCK FALSE\n")
+    res = common.run_tlc("GenMacro", cfg=cfg, name="gen_c08", tags={"CASE"}, workers=8, heap="8g", timeout=1500)
+    common.require_ok(res, "GenMacro")
+    cases = [o for (_, o) in res.lines]
+    cases.sort(key=lambda o: json.dumps(o, sort_keys=True))
+    total = len(cases)
+    if tier == "quick":
+        rnd = random.Random(common.seed())
+        base = [c for c in cases if c["filler"] == 0 and len(c["dirs"]) <= 2]
+        rest = [c for c in cases if c["filler"] == 0 and len(c["dirs"]) > 2]
+        fill = [c for c in cases if c["filler"] != 0]      # each costs ~0.2 s (the regex set is rebuilt per #define)
+        cases = base + rnd.sample(rest, min(len(rest), 9000)) + rnd.sample(fill, min(len(fill), 500))
+    else:
+        rnd = random.Random(common.seed())
+        fill = [c for c in cases if c["filler"] != 0]
+        cases = [c for c in cases if c["filler"] == 0] + rnd.sample(fill, min(len(fill), 6000))
+    hc, meta = [], []
+    for i, c in enumerate(cases):
+        modes = [True, False]
+        if i % 40 == 0 and any(dd.get("fn") for dd in c["dirs"] if dd["k"] == "define") and "(" in c["use"]:
+            modes.append("callspace")
+        for tight in modes:
+            src, defines = render_macro(c, tight)
+            hc.append(dict(id=len(hc), src=src, file="main.c", defines=defines, query=["N", "F", "xx"]))
+            meta.append((c, tight, src, defines))
+    obs = common.run_harness("cpp", hc, "c08", deadline_ms=4000)
+    kf = {}
+    for fd in verdict.findings:
+        for k in fd.get("cases", []):
+            kf[k] = fd["id"]
+    nbad = expanded = 0
+    for (c, tight, src, defines), ob in zip(meta, obs):
+        o = ob[0] if ob else {"status": "missing"}
+        problem = None
+        got = None
+        if o.get("status") != "ok":
+            problem = "preprocessor %s %s" % (o.get("status"), json.dumps(o.get("err", o.get("panic", "")))[:100])
+        else:
+            line = [l for l in o["text"].split("\n") if "USE_BEGIN" in l]
+            if len(line) != 1:
+                problem = "use line lost or duplicated"
+            else:
+                toks = _TOK.findall(line[0])
+                toks = ['"%s"' % o["literals"][int(t[1:-1])] if re.fullmatch(r"@\d+@", t) else t for t in toks]
+                got = toks[1:-1] if toks and toks[0] == "USE_BEGIN" and toks[-1] == "USE_END" else toks
+                if got != c["expected"]:
+                    problem = "expanded to %s, expected %s" % (" ".join(got), " ".join(c["expected"]))
+                if c["expected"] != c["use"]:
+                    expanded += 1
+        if problem is None:
+            continue
+        use = " ".join(c["use"])
+        keys = ["use:" + use, "use:%s/%s" % (use, "tight" if tight is True else "spaced"), "render:%s" % tight] + ["def:" + dd["name"] + "/fill%d" % c["filler"] for dd in c["dirs"] if dd["k"] == "define"]
+        hit = [kf[k] for k in keys if k in kf]
+        if hit:
+            verdict.attribute(hit[0])
+            continue
+        nbad += 1
+        verdict.violation("use `%s` after %s (%s, %d fillers): %s" % (join_tokens(c["use"], tight), [dd.get("name") + ("" if dd["k"] == "define" else "-undef") for dd in c["dirs"]], c["origin"], c["filler"], problem[:140]),
+                          dict(property=pid, directives=c["dirs"], use=c["use"], origin=c["origin"], fillers=c["filler"], tight=tight, expected=c["expected"], observed=got, source=src, defines=defines, problem=problem, finding_keys=keys))
+    if expanded < 100:
+        raise common.ToolError("vacuous: %d cases with an actual expansion" % expanded)
+    cov = dict(states=res.distinct, transitions=res.generated, traces_validated_against_impl=len(hc),
+               samples=[dict(source=m[2], defines=m[3], expected=m[0]["expected"]) for m in meta[200:203]],
+               cases_generated=total, cases_replayed=len(cases), renderings=len(hc), with_actual_expansion=expanded, disagreements=nbad,
+               attributed_to_known_findings=verdict.known, exhaustive=(len(cases) == total),
+               explanation="GenMacro.tla enumerates definition subsets (object-like, function-like with 0-3 parameters, bodies using earlier macros, parameter names "
+                           "that are substrings of other identifiers), #undef/redefinition tails, source vs -D origin, 0..198 filler macros (chunk boundaries) and 45 use "
+                           "sites (adjacent operators, inside longer identifiers, inside strings, nested calls, parentheses depth 1-5); the preprocessed token sequence must "
+                           "equal MacroRef!Expand, for a tight and a spaced rendering.")
+    common.write_evidence(pid, tier, "model_checking", cov, time.time() - t0, len(verdict.violations), ["no # / ## operators, variadics or recursive macros (outside the property)"])
+    return verdict.finish(max_print=40)
+
+
+REGISTRY["C08"] = c08
